@@ -72,6 +72,15 @@ def traces(ctx, which, shards, runs, maxlen):
     vlib.kvh(["trace", "minlong", ctx.seed + 1, 310000, kv, 0], out=lt2)
     okl = vlib.validate_trace(ctx, "LongTrace", lt2, "a 310 000-base sequence: 300 000 bytes without a window, then 4500 windows with one minimiser "
                               "(positions beyond 2^16), every run judged from the input bytes", "minit", timeout=3000) and okl
+    # (w, m) from a wide set on 2500 bases: m anywhere in 1..31, windows of 1..257 m-mers (at and beside powers of two)
+    def mid(i):
+        t = ctx.path("%s_mid_%d.ndjson" % (which, i))
+        vlib.kvh(["trace", "minmid", ctx.seed * 100 + i, kv], out=t)
+        return t
+    mids = vlib.parallel(mid, range(12 if ctx.thorough() else 4))
+    okm = vlib.parallel(lambda t: vlib.validate_trace(ctx, "LongTrace", t, "2500 bases, (w, m) from the wide set: " + os.path.basename(t), "minit",
+                                                      timeout=3000), mids)
+    okl = all(okm) and okl
     # every gap length 0..130 of one repeated ambiguous byte between clean stretches just longer than a window
     gp = ctx.path("%s_gaps.ndjson" % which)
     vlib.kvh(["trace", "gaps", ctx.seed, which], out=gp)
